@@ -136,7 +136,7 @@ def _solve(z3, e, neg, timeout_ms):
         s = z3.Solver()
         for k, v in setup.items():
             s.set(k, v)
-        s.set("timeout", timeout_ms)
+        s.set("timeout", max(10000, timeout_ms // 3))
         s.add(*e.pc)
         s.add(neg)
         s.add(*ax)
@@ -146,7 +146,7 @@ def _solve(z3, e, neg, timeout_ms):
     try:
         t = z3.Then(z3.With("simplify", som=True, arith_lhs=True), "smt")
         s = t.solver()
-        s.set("timeout", timeout_ms)
+        s.set("timeout", max(10000, timeout_ms // 3))
         s.add(*e.pc)
         s.add(neg)
         s.add(*ax)
@@ -239,7 +239,12 @@ def explore(fn, cfg, opts):
                ops=0, symops=0, ops_seen={}, violations=[], inconclusive=[], assumptions=[], samples=[],
                solver_used={}, distinct=set(), inputs=[], trivially_true=0)
     pending = [[]]
+    max_viol = int(opts.get("max_violations", 6))
+    unconfirmed = unknowns = 0
     while pending:
+        if len(res["violations"]) >= max_viol or unconfirmed >= max_viol * 2 or unknowns >= 3:
+            res["stopped_early"] = "violation budget reached; remaining paths of this configuration not explored"
+            break
         if res["paths"] >= max_paths:
             res["inconclusive"].append(f"path budget {max_paths} exhausted")
             break
@@ -279,8 +284,13 @@ def explore(fn, cfg, opts):
         for a in e.assumptions:
             if a not in res["assumptions"]:
                 res["assumptions"].append(a)
-        for ob in e.obligations:
+        # concretely false obligations first: they need no solver and exhaust the violation budget quickly
+        ordered = sorted(e.obligations, key=lambda o: 0 if (not T.is_z(o.cond) and not o.cond) else 1)
+        for ob in ordered:
             res["obligations"] += 1
+            if len(res["violations"]) >= max_viol or unconfirmed >= max_viol * 2 or unknowns >= 3:
+                res["skipped_after_violations"] = res.get("skipped_after_violations", 0) + 1
+                continue
             cond = ob.cond
             if not T.is_z(cond):
                 if cond:
@@ -307,6 +317,7 @@ def explore(fn, cfg, opts):
                 res["discharged"] += 1
                 continue
             if verdict == "unknown":
+                unknowns += 1
                 res["inconclusive"].append(f"solver unknown on obligation '{ob.label}' sig={_js(ob.sig)}")
                 continue
             # candidate counterexample: replay on the plain library before reporting
@@ -333,6 +344,7 @@ def explore(fn, cfg, opts):
                 v["confirmed"] = True
                 res["violations"].append(v)
             else:
+                unconfirmed += 1
                 res["inconclusive"].append(f"candidate counterexample for '{ob.label}' did not reproduce on the real library "
                                            f"({rep.get('status') if rep else None}: {str(rep.get('why', ''))[:500] if rep else ''}) sig={_js(ob.sig)}")
         res["queries"] += e.nqueries
